@@ -622,6 +622,8 @@ class Ex:
             return self.contains(b, a, fr)
         if isinstance(op, ast.NotIn):
             return z_not(self.contains(b, a, fr))
+        if isinstance(op, (ast.Lt, ast.LtE, ast.Gt, ast.GtE)):
+            a, b = self.resolve(a), self.resolve(b)      # an optional value is decided on this path before it is ordered
         if self.is_arr(a) or self.is_arr(b):
             return self.lib.arr_compare(self, CMP[type(op)], a, b)
         if isinstance(a, VOpaque) or isinstance(b, VOpaque):
@@ -790,6 +792,7 @@ class Ex:
         return self.binop(e.op, a, b, fr)
 
     def binop(self, op, a, b, fr):
+        a, b = self.resolve(a), self.resolve(b)      # an optional operand is decided on this path before it is used
         for x in (a, b):
             if isinstance(x, VOpaque) and x.kind == "qty":      # value-carrying boundary object (astropy Quantity contract)
                 return self.lib.opaque_binop(self, op, a, b) if not (isinstance(a, VOpaque) and a.kind != "qty") else self.cfg.lib_overrides[("binop", "qty")](self, op, a, b)
